@@ -1,0 +1,5 @@
+//go:build !verif
+
+package priq
+
+func verifGate(string) {}
